@@ -71,6 +71,14 @@ def faults(res, ctx, rng):
                                  rng.choice((0, 0, 1, (1 << 31) - 1, 1 << 31, (1 << 32) - 1, 1 << 32, (1 << 64) - 1))
                                  if rng.random() < 0.3 else rng.randrange(1, 99999)))
                 nested = with_noise(rng, [H.real_fault(k, va, pr, ft, pid) for k, va, pr, ft, pid in recs])
+                if recs and rng.random() < 0.4:
+                    # NEIGHBOURS of the real-fault codes - the other codes of their subclass (0x0132: fast / slow fault,
+                    # map lookups, disconnects), ids just below and above the four, the same low bits in the next classes -
+                    # are not real-fault records: one of them BEFORE the first real-fault record changes nothing
+                    nb = rng.choice((0x1320000, 0x1320004, 0x1320018, 0x132001c, 0x1320020, 0x1320100, 0x132fffc, 0x1330008,
+                                     0x1310008, 0x2320008, 0x0320008, 0x1320008 | (1 << 16)))
+                    nested.insert(0, H.A(nb, H.NONE, tuple(rng.getrandbits(32) for _ in range(4))))
+                    res.count('fault_windows_with_a_neighbouring_code_first')
                 addr = rng.getrandbits(44)
                 is_kernel = rng.randrange(2)
                 seq = H.page_fault(addr, is_kernel, result, ftype, nested)
@@ -422,6 +430,7 @@ def run(ctx):
                         'decoded record) is accepted', 'with a non-zero result pid/protection may be absent']
     res.require('faults_compared', 50)
     res.require('faults_first_record_undecoded', 1)
+    res.require('fault_windows_with_a_neighbouring_code_first', 20)
     res.require('fault_windows_under_other_tables', 50)
     res.require('launches_compared', 20)
     res.require('launches_with_address_ties', 1)
